@@ -178,3 +178,13 @@ func init() {
 		Assumes:    []string{"the language's truthiness table in the checker"},
 	})
 }
+
+func init() {
+	register(&propSpec{
+		ID:    "C17",
+		Rules: []func(*Ctx){ruleR17a, ruleR17b, ruleR17c, ruleR17d},
+		Explain: "R17a: every operand slot of every operator printer (the node kinds the parser's operator constructors build, derived on each run) is printed through a wrapper whose parenthesising type list covers all operator kinds, so no operand can re-associate with its context; R17b: map-literal keys are printed through a function that escapes backslash and quote; R17c: no printing or Children() method depends on map iteration order; R17d/R17e: the unary minus is printed apart from its operand and integral floats keep a decimal point.",
+		NotDecided: "the formatting of numeric literals beyond the decimal point rule (exponents, precision); that separators inside the non-operator printers (function arguments, list items, directive arguments) cannot be confused, which holds by their bracket/comma structure but is not computed here.",
+		Assumes:    []string{"an expression in parentheses parses to the same tree as the expression"},
+	})
+}
